@@ -124,8 +124,16 @@ fn c06_auth() {
             o
         }
     };
+    // the replica may already hold the owner's genuine operation for the very same entry (same Merkle node): what
+    // is checked about an incoming operation must not depend on whether its entry is already known
+    let holds_same_entry = choice(2) == 1;
+    if holds_same_entry {
+        let genuine = RegisterOp::new(addr, { let mut c = RegisterCrdt::new(addr); c.write(b"entry".to_vec(), &BTreeSet::new()).unwrap().2 }, &sk(1));
+        let _ = reg.add_op(genuine);
+        cover("replica_already_holds_the_entry");
+    }
     let via_merge = choice(2) == 1;
-    note(format!("open={open} signer={} signature={} via_merge={via_merge}", ["owner", "writer", "stranger"][[1u8, 2, 3].iter().position(|x| *x == signer).unwrap()], ["genuine", "forged", "for another register", "genuine for other children"][sig_kind]));
+    note(format!("holds_same_entry={holds_same_entry} open={open} signer={} signature={} via_merge={via_merge}", ["owner", "writer", "stranger"][[1u8, 2, 3].iter().position(|x| *x == signer).unwrap()], ["genuine", "forged", "for another register", "genuine for other children"][sig_kind]));
     let accepted = if via_merge {
         // another replica that already contains the op (it did not go through add_op there)
         let other = SignedRegister::new(reg.base_register().clone(), reg.signature.clone(), [op.clone()].into_iter().collect());
